@@ -21,7 +21,7 @@ from ..acc import Acc
 ID = "C14"
 LEVEL = "model_checking"
 TECHNIQUE = "explicit-state BFS over the real cache objects against a policy transition relation + exhaustive preemption-bounded interleavings (baton scheduler) with a linearizability oracle"
-RULE = ("A: LRUCache/HybridCache/SimpleCache/DiskCache(+/- in-memory LRU), max_size 1..3, keys a,b,c, values 1,2, durations 0,1,3: BFS over "
+RULE = ("A: LRUCache/HybridCache/SimpleCache/DiskCache(+/- in-memory LRU), max_size 1..3, keys a,b,c, values 1,2, durations 0,2,3: BFS over "
         "put/get/clear(/reopen) to depth D from the implementation's own state; contains/len read at every state. B: every 2-thread program "
         "with 1..2 operations per thread on colliding keys, all interleavings with <= 2 preemptions. C: every history of length <= 3 x every "
         "assignment of its steps to two forked processes")
@@ -33,7 +33,7 @@ BUDGET = {"quick": 75.0, "thorough": 900.0}
 
 KEYS = ("a", "b", "c")
 VALUES = (1, 2)
-DURS = (0.0, 1.0, 3.0)
+DURS = (0.0, 2.0, 3.0)  # (2, 3) with unequal access counts separates duration/total_duration from duration/anything-else at depth 4
 
 
 # ------------------------------------------------------------------------------------------------
@@ -820,11 +820,11 @@ def configs(tier):
     cf.append({"kind": "disk", "max_size": 3, "lru": False, "init": full})
     cf.append({"kind": "disk", "max_size": 3, "lru": True, "lru_size": 2, "init": full})
     cf.append({"kind": "lru", "max_size": 3, "init": full})
-    cf.append({"kind": "hybrid", "max_size": 3, "init": [["put", "a", 1, 0.0], ["put", "b", 1, 1.0], ["put", "c", 1, 3.0]]})
+    cf.append({"kind": "hybrid", "max_size": 3, "init": [["put", "a", 1, 0.0], ["put", "b", 1, 2.0], ["put", "c", 1, 3.0]]})
     return cf
 
 
-DEPTH = {"quick": {"lru": 5, "hybrid": 3, "simple": 3, "disk": 3}, "thorough": {"lru": 7, "hybrid": 4, "simple": 4, "disk": 4}}
+DEPTH = {"quick": {"lru": 5, "hybrid": 4, "simple": 3, "disk": 3}, "thorough": {"lru": 7, "hybrid": 5, "simple": 4, "disk": 4}}
 
 
 def plan(tier, seed):
